@@ -1038,7 +1038,7 @@ func (g *Gen) specEq(l, r Val) string {
 				}
 				return "false"
 			}
-			return and(eq(a.Ref, b.Ref), eq(a.Idx, b.Idx))
+			return and(eq(a.Ref, b.Ref), "(or (= "+a.Ref+" 0) "+eq(a.Idx, b.Idx)+")")
 		}
 	case IfaceV:
 		if b, ok := r.(IfaceV); ok {
